@@ -239,8 +239,7 @@ func roundTripElem(e ast.Element) subResult {
 		return subResult{}
 	}
 	if canon(ot) == canon(nt) {
-		reflectJSONDisagree++
-		res.ok = true
+		res.ok = true // the JSON oracle is the authority
 		return res
 	}
 	res.diff = firstDiff(ot, nt)
@@ -357,20 +356,60 @@ func localize(prog *ast.Program, src []byte) *localized {
 			}
 		}
 		trySeparator := func() {
+			// A semicolon after every line that can end a statement / condition; if that repairs the print, the
+			// defect is a missing separator. The needed semicolons are then reduced greedily; the key names the
+			// first token of the line that would otherwise continue the previous one.
 			lines := strings.Split(r.printed, "\n")
-			for i := 0; i < len(lines)-1 && loc.Key == ""; i++ {
-				if strings.TrimSpace(lines[i]) == "" || strings.HasSuffix(lines[i], "{") {
+			can := make([]bool, len(lines))
+			for i := 0; i < len(lines)-1; i++ {
+				t := strings.TrimSpace(lines[i])
+				if t == "" {
 					continue
 				}
-				fixed := strings.Join(lines[:i], "\n")
-				if i > 0 {
-					fixed += "\n"
+				switch t[len(t)-1] {
+				case '{', '(', '[', ',', ':', ';':
+					continue
 				}
-				fixed += lines[i] + ";\n" + strings.Join(lines[i+1:], "\n")
-				if t, perr := parseIn(r.context, fixed); perr == "" && t == orig {
-					nxt := strings.TrimSpace(lines[i+1])
+				can[i] = true
+			}
+			build := func(use []bool) string {
+				var b strings.Builder
+				for i, l := range lines {
+					b.WriteString(l)
+					if use[i] {
+						b.WriteByte(';')
+					}
+					if i < len(lines)-1 {
+						b.WriteByte('\n')
+					}
+				}
+				return b.String()
+			}
+			repaired := func(use []bool) bool {
+				t, perr := parseIn(r.context, build(use))
+				return perr == "" && t == orig
+			}
+			if !repaired(can) {
+				return
+			}
+			use := append([]bool(nil), can...)
+			for i := range use {
+				if use[i] {
+					use[i] = false
+					if !repaired(use) {
+						use[i] = true
+					}
+				}
+			}
+			for i := range use {
+				if use[i] {
+					nxt := ""
+					for j := i + 1; j < len(lines) && nxt == ""; j++ {
+						nxt = strings.TrimSpace(lines[j])
+					}
 					loc.Key = fmt.Sprintf("needs-separator:before-line-starting-with=%s", tokClass(firstChunk(nxt)))
-					loc.Detail = fmt.Sprintf("printed %q; a semicolon after line %d repairs it", clipS(r.printed, 300), i+1)
+					loc.Detail = fmt.Sprintf("printed %q; a semicolon after line %d (%q) repairs it", clipS(r.printed, 300), i+1, clipS(strings.TrimSpace(lines[i]), 80))
+					return
 				}
 			}
 		}
